@@ -1,8 +1,8 @@
-(* Extraction of the C16 models (Model/Enforce.v) with the executable prime fields of Base/ZpOps.v
+(* Extraction of the C16 models (Model/Enforce.v, Model/EnforceLagrange.v) with the executable prime fields of Base/ZpOps.v
    for the correspondence driver.  Directives: ExtrOcamlBasic only. *)
 From Coq Require Extraction ExtrOcamlBasic.
 From VBase Require Import MachInt FieldOps ZpOps.
-From VModel Require Import Enforce.
+From VModel Require Import Enforce EnforceLagrange.
 Extraction Language OCaml.
 Separate Extraction
   mk_single mk_periodic mk_sequence is_single is_periodic is_sequence validate_trace_width
@@ -10,4 +10,7 @@ Separate Extraction
   eval_degree exemptions_ok
   fpow from_transition from_assertion d_degree eval_numerator eval_exemptions evaluate_at
   poly_eval idft bc_poly_offset bc_new bc_evaluate_at
+  lag_num_coefficients lag_rows lag_shift lag_reads lag_readers zidx lag_new lag_num_constraints lag_raw lag_ith_numerator
+  lag_ith_divisor lag_numerators lag_evaluate_and_combine lag_frame_from_poly lag_frame_at_row lag_kernel_col
+  lag_assertion_value lag_boundary_numerator lag_boundary_denominator lag_boundary_evaluate_at
   zp_ops P64 P62 P128.
